@@ -29,7 +29,9 @@ RULE = ("stream 1: one case = one run of the real Simulator with a StochasticNet
         "one aims at order dependence inside post_charging_update: more satisfied EVs than waiters); every case is also run in two "
         "fresh interpreters with PYTHONHASHSEED=1 / 4242 (the check runs with 0) and the recorded runs must be identical; "
         "40% of the cases name their stations unusually (integers from 0, an empty string, mixed); in a third of the simulator "
-        "runs the scheduler raises once in a period with an arrival and run() is called again (interrupted-and-resumed run)")
+        "runs the scheduler raises (Exception / BaseException subclass, arrival or arbitrary periods) and run() is called again with the "
+        "same or a fresh scheduler; 12% run a second simulation on the same network object; every 5th direct history drives two "
+        "live networks alternately; odd periods / voltages / ratings, int and falsy session ids, numpy times, callers clearing returned lists")
 ASSUMPTIONS = ["each session is plugged in once and unplugged once, after its plugin (C01); the monitor re-checks it on every recorded run",
                "EV objects are identified with their session ids; random.choice is an arbitrary index into the free list",
                "theorems are about Model/StochNet.v; the model is tied to stochastic_network.py by the per-call state comparison "
